@@ -224,7 +224,7 @@ func packBoth(m *dns.Msg, e *event, sum *hx.Summary, c interface{}) []event {
 			}
 		}
 	}); p != "" {
-		sum.Mis("compress/panic:"+e.Key, "Pack panicked: "+p, c)
+		sum.Mis("compress/panic:"+e.G, "Pack panicked: "+p, c)
 		return nil
 	}
 	if eu != nil { // not this property's business (C01 / C08 report what cannot be packed)
@@ -235,7 +235,7 @@ func packBoth(m *dns.Msg, e *event, sum *hx.Summary, c interface{}) []event {
 		c = map[string]interface{}{"event": map[string]interface{}{"g": e.G, "v": e.V, "key": e.Key, "hasmsg": false, "bytesU": hx.FromBytes(bu)}}
 	}
 	if ec != nil {
-		sum.Mis("compress/pack-error:"+e.Key, fmt.Sprintf("Pack() with Compress = true fails (%v) on a message that packs without compression", ec), c)
+		sum.Mis("compress/pack-error:"+e.G, fmt.Sprintf("Pack() with Compress = true fails (%v) on a message that packs without compression", ec), c)
 		return nil
 	}
 	su, err := walker.Walk(L, bu)
@@ -249,7 +249,7 @@ func packBoth(m *dns.Msg, e *event, sum *hx.Summary, c interface{}) []event {
 		ne := *e
 		ne.BytesC, ne.BytesU, ne.Su = hx.FromBytes(bc), hx.FromBytes(bu), su
 		if ne.Sc, err = walker.Walk(L, bc); err != nil {
-			sum.Mis("compress/compressed-unreadable:"+e.Key, fmt.Sprintf("the octets packed with Compress = true cannot be read by an independent reader: %v", err), c)
+			sum.Mis("compress/compressed-unreadable:"+e.G, fmt.Sprintf("the octets packed with Compress = true cannot be read by an independent reader: %v", err), c)
 			continue
 		}
 		out = append(out, ne)
